@@ -69,6 +69,12 @@ def _by_cases(prog, b, paths, adt, meth):
     return None
 
 
+def _deref_arg(t):
+    while isinstance(t, tuple) and t[0] in ("ref", "deref", "load"):
+        t = strip(t[1])
+    return t
+
+
 def rule_cmp_delegate(ctx):
     r = RuleResult("CMP-DELEGATE", ["C19"],
                    "Eq/Ord/PartialOrd/Hash of Rc and Snapshot are exactly the Option<&T> operations applied to as_ref(); "
@@ -77,8 +83,17 @@ def rule_cmp_delegate(ctx):
     for adt, selfty in TYPES.items():
         asref = "%s::<%s>::as_ref" % (adt, "T" if adt.endswith("Rc") else "'g, T")
         prog.body(asref)
+        ASREFS = ("strong::Rc::<T>::as_ref", "strong::Snapshot::<'g, T>::as_ref")
+        jobs = []
         for trait, (meth, noperands, target) in METHODS.items():
-            name = "<%s as %s>::%s" % (selfty, trait, meth)
+            jobs.append(("<%s as %s>::%s" % (selfty, trait, meth), meth, noperands, target))
+            # comparisons with the *other* handle type (`Rc == Snapshot`): the same obligation, each operand through its own as_ref
+            pre = "<%s as %s<" % (selfty, trait)
+            for nm in sorted(prog.bodies):
+                if nm.startswith(pre) and nm.endswith(">>::" + meth) and prog.bodies[nm].kind != "closure" and \
+                        any(h in nm[len(pre):] for h in ("strong::Rc<", "strong::Snapshot<")):
+                    jobs.append((nm, meth, noperands, target))
+        for (name, meth, noperands, target) in jobs:
             b = prog.body(name)
             r.functions.add(name)
             paths = [p for p in ctx.ex.paths(b) if p.exit[0] != "diverge"]
@@ -96,9 +111,15 @@ def rule_cmp_delegate(ctx):
             if ok:
                 p = paths[0]
                 calls = [e for e in p.events if e.kind == "call"]
-                asrefs = [e for e in calls if e.target == asref]
-                others = [e for e in calls if e.target != asref]
-                if len(asrefs) != noperands or len(others) != 1:
+                asrefs = [e for e in calls if e.target in ASREFS]
+                others = [e for e in calls if e.target not in ASREFS]
+                if meth == "eq" and name.count("strong::") >= 2 and not asrefs and len(others) == 1 and \
+                        (others[0].ntarget or "") in ("std::cmp::impls::eq", "std::cmp::PartialEq::eq") and \
+                        {_deref_arg(strip(a)) for a in others[0].args} == {("arg", 1, b.local_name(1)), ("arg", 2, b.local_name(2))} and \
+                        strip(p.ret) == others[0].result:
+                    # `Snapshot == Rc` written as `other == self`: equality is symmetric, the impl it lands on is judged itself
+                    pass
+                elif len(asrefs) != noperands or len(others) != 1:
                     ok, why = False, "calls %s" % [e.ntarget for e in calls]
                 else:
                     o = others[0]
@@ -144,8 +165,10 @@ def rule_cmp_delegate(ctx):
         # no second impl of the comparison traits
         for trait in METHODS:
             n = [i for i in prog.items["impls"] if i.get("self_adt") == adt and i.get("trait") == trait]
-            if len(n) != 1:
-                r.violate(adt, trait, "expected exactly one impl of %s, found %d" % (trait, len(n)))
+            judged = [j for j in jobs if j[0].startswith("<%s as %s" % (selfty, trait))]
+            if len(n) < 1 or len(n) != len(judged):
+                r.violate(adt, trait, "%d impl(s) of %s, of which %d could be judged (one for the type itself, and comparisons with "
+                          "the other handle type): a comparison with anything else is unclassified" % (len(n), trait, len(judged)))
         # as_ref
         b = prog.body(asref)
         r.functions.add(asref)
